@@ -59,7 +59,8 @@ theorem C04_no_default (t : TreeInfo) (mv : Option Str) (d : Ini) (h : serialize
   exact w.view.noDefault
 
 /-- **C04, trees, on the document.**  Hypotheses (all decidable):
-* `hts`/`hfl` — integer build timestamp that survives `int(float(str n))` (true for `|n| ≤ 2^53`; beyond: F17);
+* `hts`/`hfl` — integer build timestamp that survives `int(float(str n))` (true for `|n| ≤ 2^53`; beyond: F17); a bool is no
+  integer any more (F43 repaired: `C04_bool_timestamp_refused`), so `hts` excludes float timestamps only;
 * `hplat`, `huok` — platform names and UIDs are non-empty and free of `,` (they travel in comma-separated options: a name
   with a comma is not representable in the file syntax);
 * `hnd` — UIDs are pairwise distinct in the forest (a UID identifies a variant; that sibling ids are then distinct too is
@@ -91,6 +92,41 @@ theorem C04_tree_fixpoint (fo : FloatOracle) (t : TreeInfo) (mv : Option Str) (d
   have := C04_tree_readback fo t mv d n h hts hfl hplat huok hnd htop hcs himg hv
   rw [hnorm] at this
   exact ⟨this, by rw [this]; exact h⟩
+
+/-! ### F43 repaired: a bool is no build timestamp
+
+`Tree.build_timestamp = True` used to pass `_assert_type("build_timestamp", [int, float])` (`bool <: int`), was written as
+`build_timestamp = True`, and the file could not be loaded (`float("True")`).  `_assert_type` now accepts a bool only where
+`bool` is listed (`Gen.assertTypeBoolStrict`, translated from the method's body): such a tree is refused by the writer, so the
+excluded region of `hts` (`t.tree.ts = .int n`) contains floats only. -/
+
+theorem tree_validate_unfold (o : Obj) : validateClass "treeinfo.Tree" o = runRules customs o Gen.rules_treeinfo_Tree.flat := by rfl
+
+theorem rule_build_timestamp_mem : Rule.type kBuildTs [.int, .float] ∈ Gen.rules_treeinfo_Tree.flat := by
+  simp only [Gen.rules_treeinfo_Tree, MethodRules.flat, List.flatMap_cons, List.flatMap_nil, List.cons_append, List.nil_append, List.append_nil]
+  repeat (first | exact List.Mem.head _ | apply List.Mem.tail)
+
+/-- **a tree whose build timestamp is a bool is not written** (every tree, either truth value) … -/
+theorem C04_bool_timestamp_refused (t : TreeInfo) (mv : Option Str) (b : Bool) (hb : t.tree.ts = .bool b) (d : Ini) :
+    serialize t mv ≠ .ok d := by
+  intro h
+  have hv := (serialize_valid h).tree
+  rw [tree_validate_unfold] at hv
+  have h1 := Rule.check_type_ok ((runRules_ok_iff _ _ _).mp hv _ rule_build_timestamp_mem)
+  have hg : (treeObj t.tree).get kBuildTs = .bool b := by
+    cases ht : t.tree with
+    | mk arch ts platforms =>
+      rw [ht] at hb; simp only at hb; subst hb; rfl
+  rw [hg] at h1
+  cases b <;> cases h1
+
+/-- … consequently a written tree's timestamp is an int or a float … -/
+theorem C04_written_timestamp_int_or_float (t : TreeInfo) (mv : Option Str) (d : Ini) (h : serialize t mv = .ok d) :
+    (∃ n, t.tree.ts = .int n) ∨ (∃ r i, t.tree.ts = .float r i) := by
+  cases hts : t.tree.ts with
+  | int n => exact .inl ⟨n, rfl⟩
+  | float r i => exact .inr ⟨r, i, rfl⟩
+  | bool b => exact absurd h (C04_bool_timestamp_refused t mv b hts d)
 
 /-- `TextOK sp d` (`Proofs/TextOKDecide.lean`): the written document can travel as text — no line feed anywhere, and what the
 reader is to return (the sorted document without the comment-named options) is representable: single-line values and
@@ -256,6 +292,10 @@ example : ReadValid (norm C04_exTree0) := by
     have : (serialize C04_exTree none).toBool = true := by decide +kernel
     rw [hs] at this; cases this
   | ok d => exact readValid_of_normal (serialize_valid hs) hn
+/-- F43 repaired, evaluated on the example: with `build_timestamp = True` the writer raises TypeError -/
+theorem C04_bool_timestamp_refused_witness :
+    (match serialize { C04_exTree with tree := { C04_exTree.tree with ts := .bool true } } none with
+     | .error .typeError => true | _ => false) = true := by decide +kernel
 /-- …and the conclusion, evaluated: reading the written document gives the tree back; for the un-normalised tree its normal form -/
 example : (serialize C04_exTree none).toOption.map (deserialize C04_fo) = some (.ok C04_exTree) := by decide +kernel
 example : (serialize C04_exTree0 none).toOption.map (deserialize C04_fo) = some (.ok (norm C04_exTree0)) := by decide +kernel
